@@ -134,4 +134,13 @@ func VerifC19RequiredFaithful() {
 	nd.Assume(vNoSep(y, " ="))
 	q := NewProperty(nil, PropertyTypeComponent, "wire", "v,qualifier="+y)
 	nd.Assert(q.IsRequired(), "C19: a point without a required argument is required")
+	// the arguments parsed from a tag belong to one injection point: relaxing one point
+	// programmatically does not touch another point that carries the same tag text
+	q2 := NewProperty(nil, PropertyTypeComponent, "wire", "v,qualifier="+y)
+	q2.SetArg(ArgRequired, "false")
+	q2.AddArg(ArgQualifier, "extra")
+	nd.Assert(!q2.IsRequired(), "C19: SetArg(required=false) makes the point optional")
+	nd.Assert(q.IsRequired(), "C19: only its own explicit required=false makes a point optional")
+	got, _ := q.Args().Find(ArgQualifier)
+	nd.Assert(len(got) == 1 && got[0] == y, "C19: an argument's values are exactly the items written in its own tag")
 }
